@@ -184,8 +184,7 @@ func runStream(r Round) *outcome {
 	feed.Close()
 	sink.Close()
 	openGate()
-	if ok, dump := rc.waitBlocked(10*time.Second, 40*time.Second); !ok {
-		o.failf("C16/stream/operation-did-not-return", "Close or an in-flight Read/WritePacket did not return within 10s after both transports were closed"+"; goroutines inside the code under test:\n%s", dump)
+	if !rc.mustReturn(o, base, "Close or an in-flight Read/WritePacket (both transports already closed)") {
 		return o
 	}
 	rc.measure(o)
